@@ -33,43 +33,80 @@ def build(n, deps, prio, debug=None, tags=None):
 
 
 class Order:
-    def __init__(self):
+    def __init__(self, ids):
         self.order = []
+        self.ids = ids
 
     def __call__(self, event, **f):
-        if event == "node_enter":
-            self.order.append(int(f["xn"].id[1:]))
+        if event == "node_enter" and f["xn"].id in self.ids:
+            self.order.append(self.ids.index(f["xn"].id) + 1)
 
 
-def observe(case, idx):
+def composed_case(case, idx):
+    """A DAG obtained through compose(): the nodes the outputs need, up to the chosen input.  Its compound priorities are
+    those of ITS graph (own priority + the distinct descendants that were kept); returns (dag, ids, call arguments, the
+    case re-labelled to the kept nodes) or None."""
+    import random
+    import warnings
+
+    n, deps = case["n"], case["deps"]
+    rng = random.Random(idx)
+    inner = [k for k in range(1, n + 1) if any(k in deps[m - 1] for m in range(1, n + 1))]
+    leaves = [k for k in range(1, n + 1) if not any(k in deps[m - 1] for m in range(1, n + 1))]
+    if n < 3 or not inner:
+        return None
+    inp = rng.choice(inner)
+    outs = [k for k in leaves if k != inp] or leaves
+    d = build(n, deps, case["prio"])
+    try:
+        with warnings.catch_warnings():
+            warnings.simplefilter("ignore")
+            c = d.compose("comp", [f"f{inp}"], [f"f{k}" for k in outs])
+    except ValueError:
+        return None
+    kept = sorted(int(i[1:]) for i in c.exec_nodes if i.startswith("f") and i[1:].isdigit() and int(i[1:]) != inp)
+    if len(kept) < 2:
+        return None
+    new = {k: j + 1 for j, k in enumerate(kept)}
+    sub = dict(case, n=len(kept), deps=[[new[x] for x in deps[k - 1] if x in new] for k in kept],
+               prio=[case["prio"][k - 1] for k in kept], prio2=[case["prio2"][k - 1] for k in kept],
+               conf=[new[k] for k in (case.get("conf") or []) if k in new], sels=[], debug=None)
+    sub["origin"] = {"case": {k: case[k] for k in ("n", "deps", "prio", "prio2") if k in case}, "idx": idx}
+    return c, [f"f{k}" for k in kept], [0], sub
+
+
+def observe(case, idx, given=None):
     from tawazi import _verif
 
     n, deps = case["n"], case["deps"]
     from tawazi import cfg as twz_cfg
 
     named = case.get("conf") or list(range(1, n + 1))
-    how = idx % 5
+    how = idx % 5 if given is None else 0
     # how == 1: the reconfiguration addresses the nodes through tags - all the nodes that get the same new priority carry
     # one tag and share one entry of the configuration
     tags = {k: f"q{case['prio2'][k - 1]}" for k in named} if how == 1 else {}
-    d = build(n, deps, case["prio"], case.get("debug"), tags)
+    if given is not None:
+        d, ids, callargs = given
+    else:
+        d, ids, callargs = build(n, deps, case["prio"], case.get("debug"), tags), [f"f{k}" for k in range(1, n + 1)], []
     # debug nodes take part (in calls and, pulled below the selected leaves, in executors)
     twz_cfg.RUN_DEBUG_NODES = bool(case.get("debug") and any(case["debug"]))
     row = dict(case)
     row["hs"] = os.environ.get("PYTHONHASHSEED", "")
-    row["cp_build"] = [d.graph_ids.compound_priority[f"f{k}"] for k in range(1, n + 1)]
-    rec = Order()
+    row["cp_build"] = [d.graph_ids.compound_priority[ids[k - 1]] for k in range(1, n + 1)]
+    rec = Order(ids)
     _verif.sink = rec
     try:
-        d()
+        d(*callargs)
     finally:
         _verif.sink = None
     row["order"] = rec.order
     subs = []
     for (R, X, T) in case.get("sels", []):
-        ids = lambda S: None if S is None else [f"f{k}" for k in S]  # noqa: E731
+        idl = lambda S: None if S is None else [f"f{k}" for k in S]  # noqa: E731
         try:
-            ex = d.executor(root_nodes=ids(R), exclude_nodes=ids(X), target_nodes=ids(T))
+            ex = d.executor(root_nodes=idl(R), exclude_nodes=idl(X), target_nodes=idl(T))
         except ValueError:
             continue
         g = [int(i[1:]) for i in ex.graph.nodes]
@@ -78,7 +115,7 @@ def observe(case, idx):
             m |= 1 << (k - 1)
         subs.append([m] + [ex.graph.compound_priority[f"f{k}"] if k in g else 0 for k in range(1, n + 1)])
     row["subs"] = subs
-    conf = {"nodes": {f"f{k}": {"priority": case["prio2"][k - 1]} for k in named}}
+    conf = {"nodes": {ids[k - 1]: {"priority": case["prio2"][k - 1]} for k in named}}
     if how == 1:
         conf = {"nodes": {t: {"priority": int(t[1:])} for t in sorted(set(tags.values()))}}
     if how == 3:
@@ -96,14 +133,14 @@ def observe(case, idx):
         d.config_from_dict(conf)
         if how == 1:
             d.config_from_dict(conf)        # the same configuration object once more: nothing changes
-    row["cp_reconf"] = [d.graph_ids.compound_priority[f"f{k}"] for k in range(1, n + 1)]
+    row["cp_reconf"] = [d.graph_ids.compound_priority[ids[k - 1]] for k in range(1, n + 1)]
     # a second configuration that does not touch priorities must leave the table alone
-    d.config_from_dict({"nodes": {f"f{1 + idx % n}": {"is_sequential": False}}})
-    row["cp_reconf2"] = [d.graph_ids.compound_priority[f"f{k}"] for k in range(1, n + 1)]
-    rec = Order()
+    d.config_from_dict({"nodes": {ids[idx % n]: {"is_sequential": False}}})
+    row["cp_reconf2"] = [d.graph_ids.compound_priority[ids[k - 1]] for k in range(1, n + 1)]
+    rec = Order(ids)
     _verif.sink = rec
     try:
-        d()
+        d(*callargs)
     finally:
         _verif.sink = None
     row["order2"] = rec.order
@@ -117,8 +154,19 @@ if __name__ == "__main__":
     cases = json.load(open(sys.argv[1]))
     rows = []
     for i, c in enumerate(cases):
+        if "replay_composed_idx" in c:
+            cc = composed_case(c, c["replay_composed_idx"])
+            rows.append(observe(cc[3], c["replay_composed_idx"], given=cc[:3]) if cc else {"error": "no composition", "case": c})
+            continue
         try:
             rows.append(observe(c, i))
         except BaseException as e:  # noqa: BLE001
             rows.append({"error": repr(e)[:300], "case": c})
+        if i % 3 == 0 and not c.get("debug"):
+            try:
+                cc = composed_case(c, i)
+                if cc is not None:
+                    rows.append(observe(cc[3], i, given=cc[:3]))
+            except BaseException as e:  # noqa: BLE001
+                rows.append({"error": "composed: " + repr(e)[:300], "case": c})
     json.dump(rows, open(sys.argv[2], "w"))
